@@ -17,6 +17,7 @@
 import Upnp.Lemmas.C13Announce
 import Upnp.Lemmas.C13Loop
 import Upnp.Lemmas.C13Wire
+import Upnp.Lemmas.C13Build
 import Upnp.Model.C13Consts
 namespace Upnp.C13
 
@@ -35,6 +36,30 @@ theorem gen_pins (c : Cfg) (m : Msg) (nts : Str) :
     `delay > 0`, the immediate send is its `else`, `0 ≤ lo`, `0 ≤ off`, `lo + off < 1000`, and the
     announce interval is positive -/
 theorem gen_consts_ok : constsOk genConsts = true := by decide
+
+/-! ### instantiating the device tree -/
+
+/-- **nothing is dropped**: `UpnpDevice.__init__` stores a service / embedded device under its type
+    and, when that key is taken, under `type#serviceId` / `type#UDN`; whenever the keys so used
+    (`slotsFrom`) are pairwise different — e.g. services of one type with different service ids,
+    sibling devices of one type with different UDNs — every declared item is kept, in order.  (All
+    other theorems are about the instantiated tree, whatever it is.) -/
+theorem instantiation_keeps_all {α : Type} (key alt : α → Str) (xs : List α)
+    (h : (slotsFrom key alt [] xs).Nodup) : keyedValues key alt xs = xs := by
+  have := fold_keeps key alt xs [] (by simpa [PyDict.keys] using h)
+  simpa [keyedValues, slot] using this
+
+/-- three services of one type with different ids and two sibling devices of one type are all
+    instantiated; a third item with the same type and the same id replaces the second -/
+example :
+    allDevices (build (.node "uuid:r".toList "d:R:1".toList
+      [("s:T:1".toList, "a".toList), ("s:T:1".toList, "b".toList), ("s:T:1".toList, "c".toList)]
+      [.node "uuid:x".toList "d:S:1".toList [] [], .node "uuid:y".toList "d:S:1".toList [] []]))
+     = [⟨"uuid:r".toList, "d:R:1".toList, ["s:T:1".toList, "s:T:1".toList, "s:T:1".toList]⟩,
+        ⟨"uuid:x".toList, "d:S:1".toList, []⟩, ⟨"uuid:y".toList, "d:S:1".toList, []⟩]
+    ∧ keyedValues (·.1) (·.2) [("t".toList, "a".toList), ("t".toList, "b".toList), ("t".toList, "b".toList)]
+      = [("t".toList, "a".toList), ("t".toList, "b".toList)] := by
+  refine ⟨by decide +kernel, by decide +kernel⟩
 
 /-! ### ssdp:all -/
 
